@@ -306,3 +306,54 @@ pub fn record_c18(out: &str, seed: u64, n: usize) {
     w.finish();
     println!("{}", json!({"events": events, "nontrivial": nontrivial, "samples": samples}));
 }
+
+/// C18, exhaustive permission gate (MC_Perm): one resource mask against all 256 list masks, at three
+/// levels: the mask type itself, the resource storage, and an engine fed a rule list with that grant.
+pub fn replay_perm(c: &Value, rep: &mut Report) {
+    use adblock::lists::{FilterSet, ParseOptions};
+    use adblock::resources::{PermissionMask, ResourceStorage};
+    let rp = c["rp"].as_u64().unwrap() as u8;
+    let allowed = c["allowed"].as_object().unwrap();
+    let res = crate::net::mk_resource("s.js", vec!["s".into()], "application/javascript", rp, vec![], "function s() {}");
+    let storage = ResourceStorage::from_resources(vec![res.clone()]);
+    for (k, want) in allowed.iter() {
+        let lp: u8 = k.parse().unwrap();
+        let want = want.as_bool().unwrap();
+        rep.evaluations += 1;
+        if want {
+            rep.nontrivial += 1;
+        }
+        let direct = PermissionMask::from_bits(rp).is_injectable_by(PermissionMask::from_bits(lp));
+        let via_storage = guarded(|| !storage.get_scriptlet_resources([("s, 1", PermissionMask::from_bits(lp))]).is_empty());
+        let via_engine = guarded(|| {
+            let mut fs = FilterSet::new(true);
+            fs.add_filters(["a.com##+js(s, 1)"], ParseOptions { permissions: PermissionMask::from_bits(lp), ..Default::default() });
+            let mut e = adblock::Engine::from_filter_set(fs, true);
+            e.use_resources(vec![res.clone()]);
+            !e.url_cosmetic_resources("https://a.com/").injected_script.is_empty()
+        });
+        let obs = json!({"mask": direct, "storage": via_storage.clone().unwrap_or(false), "engine": via_engine.clone().unwrap_or(false),
+                         "panic": via_storage.is_err() || via_engine.is_err()});
+        if direct != want || via_storage != Ok(want) || via_engine != Ok(want) {
+            rep.mismatch(json!({"what": "permission-gate", "resource_mask": rp, "list_mask": lp, "observed": obs,
+                                "allowed": [{"mask": want, "storage": want, "engine": want, "panic": false}], "devs": []}));
+        }
+    }
+    // a scriptlet whose dependency carries its own requirement
+    for (dk, row) in c["deps"].as_object().unwrap().iter() {
+        let dp: u8 = dk.parse().unwrap();
+        let dep = crate::net::mk_resource("d.fn", vec![], "fn/javascript", dp, vec![], "function d() {}");
+        let top = crate::net::mk_resource("s.js", vec!["s".into()], "application/javascript", rp, vec!["d.fn".into()], "function s() {}");
+        let storage = ResourceStorage::from_resources(vec![top, dep]);
+        for (k, want) in row.as_object().unwrap().iter() {
+            let lp: u8 = k.parse().unwrap();
+            let want = want.as_bool().unwrap();
+            rep.evaluations += 1;
+            let got = guarded(|| !storage.get_scriptlet_resources([("s, 1", PermissionMask::from_bits(lp))]).is_empty());
+            if got != Ok(want) {
+                rep.mismatch(json!({"what": "permission-gate-dependency", "resource_mask": rp, "dependency_mask": dp, "list_mask": lp,
+                                    "observed": format!("{:?}", got), "allowed": [format!("Ok({})", want)], "devs": []}));
+            }
+        }
+    }
+}
